@@ -29,7 +29,16 @@ func backSlice(v ssa.Value, visit func(ssa.Value) bool) {
 				walk(st.Val)
 			}
 			return
-		case *ssa.MakeSlice, *ssa.MakeMap:
+		case *ssa.MakeMap:
+			// values and keys put into the map in this function
+			for _, r := range referrers(x) {
+				if mu, ok := r.(*ssa.MapUpdate); ok && mu.Map == ssa.Value(x) {
+					walk(mu.Value)
+					walk(mu.Key)
+				}
+			}
+			return
+		case *ssa.MakeSlice:
 			return
 		}
 		if in, ok := v.(ssa.Instruction); ok {
